@@ -77,7 +77,13 @@ impl<C: Config, Q: Query> Snapshot<C, Q> {
 
         let entry = self.engine().executor_registry.get_executor_entry::<Q>();
 
-        let result = entry.invoke_executor::<Q>(query, &tracked_engine).await;
+        // a query that is already known to be a member of a dependency cycle
+        // (found while repairing it) is not executed, see `repair_query`
+        let result = if lock_guard.query_computing().is_in_scc() {
+            None
+        } else {
+            Some(entry.invoke_executor::<Q>(query, &tracked_engine).await)
+        };
 
         // WAIT POINT: We must wait all the potentially spawned threads that
         // might hold references to the tracked engine to finish before
@@ -101,7 +107,7 @@ impl<C: Config, Q: Query> Snapshot<C, Q> {
             // obtain the SCC value
             entry.obtain_scc_value::<Q>()
         } else {
-            match result {
+            match result.expect("a query outside a cycle has been executed") {
                 Ok(value) => value,
                 Err(panic) => panic.resume_unwind(),
             }
